@@ -7,3 +7,4 @@ INFO = {'not_decided': ['descriptors other than property / __get__-bearing class
         'stated_lemmas': ['induction on the hierarchy depth: each base\'s table is its own class_lookup / inst_lookup'],
         'trusted': []}
 import contracts.attrs_bounded  # noqa
+import props._all  # noqa
